@@ -75,6 +75,58 @@ func writerSpace(r *chk.Run, so spaceOpts, oracle writerOracle) {
 	r.Rule(fmt.Sprintf("writer space: every legal call sequence (header; schema/channel/message/attachment/metadata in any legal order; close) "+
 		"over the alphabets of DESIGN §3, times sub-products of the writer configuration, each enumerated exhaustively through explore.Choose; "+
 		"distinct = distinct output files (hash of sink bytes); K1 flag mask %010b", so.flagBits))
+	levels := []int{0, 1}
+	sizes := []int64{1, 64}
+	if r.Thorough() {
+		levels = []int{0, 1, 2, 3, 7}
+		sizes = []int64{1, 64, 0, 1 << 40}
+	}
+	// the small, distinct phases first: the K phases below use up the budget on a loaded machine
+	// records larger than the writer's internal thresholds (1 MiB default chunk size, buffer growth):
+	// a 1.3 MiB message followed by more records, under a small set of configurations
+	bigW := largeWorkloads()
+	r.Phase("large-records-and-long-workloads", func(x *explore.Ctx) *explore.Verdict {
+		c := bigW[x.Choose("op", len(bigW))]
+		type m struct {
+			chunked bool
+			size    int64
+			comp    string
+			level   int
+		}
+		// the last two: zstd at the levels with 16 and 32 MiB windows over chunks of more than one 128 KiB block
+		modes := []m{{false, 0, "", 0}, {true, 1, "", 0}, {true, 64, "", 0}, {true, 700, "", 0}, {true, 0, "", 0}, {true, 1 << 40, "", 0}, {true, 64, "zstd", 0}, {true, 0, "lz4", 0}}
+		fi := x.Choose("cfg", 3)
+		fl := []int{0, gow.FSkipMessageIndexing | gow.FSkipChunkIndex, 1<<gow.NFlags - 1 - gow.FSkipMagic}[fi]
+		crc := x.Bool("cfg")
+		if fi == 0 && crc {
+			// (slow encoders: once per workload, not under every flag set)
+			modes = append(modes, m{true, 0, "zstd", 2}, m{true, 1 << 21, "zstd", 3})
+		}
+		md := modes[x.Choose("cfg", len(modes))]
+		cfg := gow.Config{Flags: fl, CRC: crc, Chunked: md.chunked, ChunkSize: md.size, Compression: md.comp, Level: md.level}
+		x.Ops += len(c.Ops)
+		return run(c, cfg, x)
+	}, chk.PhaseOpts{Share: 0.3})
+	// emphasis workloads (always included, not sampled) under every flag combination of the mask
+	fixed := append(emphasis(), so.fixed...)
+	r.Phase("emphasis-workloads", func(x *explore.Ctx) *explore.Verdict {
+		c := fixed[x.Choose("op", len(fixed))]
+		var cfg gow.Config
+		if x.Bool("cfg") {
+			cfg = gow.ChooseK2(x, levels, sizes)
+		} else {
+			m := so.emphasisMask
+			if m == 0 {
+				m = so.flagBits
+			}
+			cfg = gow.ChooseK1(x, m)
+			if so.chunkedOnly && !cfg.Chunked {
+				cfg.Chunked, cfg.ChunkSize = true, 200
+			}
+		}
+		x.Ops += len(c.Ops)
+		return run(c, cfg, x)
+	}, chk.PhaseOpts{Share: 0.3})
 	if so.k1Full > 0 {
 		r.Phase(fmt.Sprintf("K1-full-depth<=%d", so.k1Full), k1(full, so.k1Full), chk.PhaseOpts{Share: 0.4})
 	}
@@ -83,12 +135,6 @@ func writerSpace(r *chk.Run, so spaceOpts, oracle writerOracle) {
 	}
 	for _, ph := range so.k1Extra {
 		r.Phase(fmt.Sprintf("K1-%s-mask%010b-depth<=%d", ph.name, ph.mask, ph.depth), k1m(ph.alpha, ph.depth, ph.mask), chk.PhaseOpts{Share: 0.5})
-	}
-	levels := []int{0, 1}
-	sizes := []int64{1, 64}
-	if r.Thorough() {
-		levels = []int{0, 1, 2, 3, 7}
-		sizes = []int64{1, 64, 0, 1 << 40}
 	}
 	if so.k2Depth > 0 {
 		r.Phase(fmt.Sprintf("K2-tiny-depth<=%d", so.k2Depth), func(x *explore.Ctx) *explore.Verdict {
@@ -109,45 +155,6 @@ func writerSpace(r *chk.Run, so spaceOpts, oracle writerOracle) {
 			return run(c, cfg, x)
 		}, chk.PhaseOpts{Share: 0.7})
 	}
-	// records larger than the writer's internal thresholds (1 MiB default chunk size, buffer growth):
-	// a 1.3 MiB message followed by more records, under a small set of configurations
-	bigW := largeWorkloads()
-	r.Phase("large-records-and-long-workloads", func(x *explore.Ctx) *explore.Verdict {
-		c := bigW[x.Choose("op", len(bigW))]
-		type m struct {
-			chunked bool
-			size    int64
-			comp    string
-			level   int
-		}
-		// the last two: zstd at the levels with 16 and 32 MiB windows over chunks of more than one 128 KiB block
-		modes := []m{{false, 0, "", 0}, {true, 1, "", 0}, {true, 64, "", 0}, {true, 700, "", 0}, {true, 0, "", 0}, {true, 1 << 40, "", 0}, {true, 64, "zstd", 0}, {true, 0, "lz4", 0}, {true, 0, "zstd", 2}, {true, 1 << 21, "zstd", 3}}
-		md := modes[x.Choose("cfg", len(modes))]
-		fl := []int{0, gow.FSkipMessageIndexing | gow.FSkipChunkIndex, 1<<gow.NFlags - 1 - gow.FSkipMagic}[x.Choose("cfg", 3)]
-		cfg := gow.Config{Flags: fl, CRC: x.Bool("cfg"), Chunked: md.chunked, ChunkSize: md.size, Compression: md.comp, Level: md.level}
-		x.Ops += len(c.Ops)
-		return run(c, cfg, x)
-	}, chk.PhaseOpts{Share: 0.5})
-	// emphasis workloads (always included, not sampled) under every flag combination of the mask
-	fixed := append(emphasis(), so.fixed...)
-	r.Phase("emphasis-workloads", func(x *explore.Ctx) *explore.Verdict {
-		c := fixed[x.Choose("op", len(fixed))]
-		var cfg gow.Config
-		if x.Bool("cfg") {
-			cfg = gow.ChooseK2(x, levels, sizes)
-		} else {
-			m := so.emphasisMask
-			if m == 0 {
-				m = so.flagBits
-			}
-			cfg = gow.ChooseK1(x, m)
-			if so.chunkedOnly && !cfg.Chunked {
-				cfg.Chunked, cfg.ChunkSize = true, 200
-			}
-		}
-		x.Ops += len(c.Ops)
-		return run(c, cfg, x)
-	}, chk.PhaseOpts{})
 }
 
 // largeWorkloads: messages bigger than 1 MiB (the default chunk size) with records before and after.
